@@ -63,6 +63,14 @@ class Vector3(tf.Tensor):
         mask = norm_cro < _epsilon
         bias_other = tf.ones_like(norm_cro) + other
         cro = tf.where(mask, numpy_cross(self, bias_other), cro)
+        # self along (1,1,1): the biased vector is parallel to self as well; use the
+        # coordinate axis with the smallest |component| of self instead
+        norm_cro = tf.expand_dims(tf.norm(cro, axis=-1), -1)
+        mask = norm_cro < _epsilon
+        axis = tf.one_hot(
+            tf.argmin(tf.abs(self), axis=-1), 3, dtype=norm_cro.dtype
+        )
+        cro = tf.where(mask, numpy_cross(self, axis), cro)
         p, _n = tf.linalg.normalize(cro, axis=-1)
         return p
 
